@@ -64,6 +64,38 @@ def run(chk, args):
                                    "had_old": T["had_old"], "tlc_output": res.error_text()})
             chk.violation({"kind": "model", "clause": res.violated[0], "what": "the observed sequence of file operations admits a crash that leaves neither the old nor the new file",
                            "first_ops": [o["op"] + ":" + o["path"] for o in T["program"][:3]]}, rp)
+    # advisory (never changes the verdict): the FS model's PREDICTION of the post-crash file class for every injected fault is compared
+    # with what the real run left on disk -- this is what binds the file-system model to the operating system
+    agree = differ = 0
+    drift = []
+    done_keys = set()
+    for T in data["traces"]:
+        if not T["program"]:
+            continue
+        key = json.dumps([T["had_old"], T["program"]])
+        if key in done_keys:
+            continue
+        done_keys.add(key)
+        pf = chk.wd / f"pred_{T['tid']}.json"
+        pf.write_text(json.dumps({"had_old": T["had_old"], "leftover": 0, "ops": T["program"]}))
+        res = vlib.run_tlc("FS", vlib.SPEC / "FS_pred.cfg", chk.wd, env={"PROGRAM_FILE": str(pf)}, timeout=600, workers=1)
+        if not res.ok:
+            drift.append({"tid": T["tid"], "problem": "prediction run failed"})
+            continue
+        chk.states += res.distinct
+        chk.transitions += res.generated
+        pred = {(p[1], p[2]): p[3] for p in vlib.extract_tagged(res.out, "PRED")}
+        for e in T["events"]:
+            want = pred.get((e["k"], e["kind"]))
+            if want is None:
+                continue
+            if want == e["cls"]:
+                agree += 1
+            else:
+                differ += 1
+                if len(drift) < 10:
+                    drift.append({"tid": T["tid"], "k": e["k"], "kind": e["kind"], "op": e["op"], "model": want, "observed": e["cls"]})
+    chk.notes["fs_model_prediction_vs_observed"] = {"agree": agree, "differ": differ, "model_drift": differ > 0, "examples": drift}
     validate_file(chk, Path(f["path"]), 1, {"C20"}, "fault-injection", spec="Trace_Crash")
     chk.traces += f["traces"]
     chk.evaluations += summ["events"]
